@@ -102,7 +102,8 @@ class Problem:
         return [emg3d.TensorMesh([h(a, 900.), h(b, 1000.), h(c, 900.)],
                                  (-450, -500, -450)) for a, b, c in gs]
 
-    def simulation(self, m, file_dir=None, gmode='same'):
+    def simulation(self, m, file_dir=None, gmode=None):
+        gmode = gmode or self.variant.get("gmode", "same")
         kw = {}
         if gmode == 'input':
             kw = dict(gridding='input', gridding_opts=self.comp_grids()[1])
